@@ -123,7 +123,7 @@ def _dyadic(lo, hi, k):
     return st.integers(int(math.ceil(lo * s)), int(math.floor(hi * s))).map(lambda i: i / s)
 
 
-REGIMES = ["generic", "generic", "corner", "team_corner", "near_equal", "identical", "targeted", "targeted", "dyadic"]
+REGIMES = ["generic", "generic", "corner", "team_corner", "near_equal", "near_equal", "equal_sums", "identical", "targeted", "targeted", "dyadic"]
 
 
 @st.composite
@@ -145,6 +145,20 @@ def team_values(draw, cfg, sizes, tau_eff=None, regimes=REGIMES, allow_zero_sigm
             m = draw(st.sampled_from([-20.0 * beta, 20.0 * beta, 20.0 * beta, -20.0 * beta, 0.0]))
             sg = draw(st.sampled_from([1e-4 * beta, 1e-4 * beta, 0.2 * beta, 10.0 * beta] + ([0.0] if allow_zero_sigma else [])))
             teams.append([[m, sg] for _ in range(k)])
+    elif regime == "equal_sums":
+        # teams of DIFFERENT composition whose totals are exactly equal the way realistic data makes them equal: small integers times a
+        # decimal unit ((10, 20) v (15, 15), everyone on 25 with individual sigmas).  Sigmas differ; float equality of the sums may or may
+        # not survive a rescaling or a shift (0.1 + 0.2 != 0.15 + 0.15).
+        unit = draw(st.sampled_from([1.0, 0.1, 0.01, 0.5])) * beta * draw(st.sampled_from([1.0, 0.24]))
+        per_player = draw(st.integers(1, 12))
+        teams = []
+        for k in sizes:
+            total = per_player * k
+            cuts = sorted(draw(st.lists(st.integers(0, total), min_size=k - 1, max_size=k - 1)))
+            parts = [b - a for a, b in zip([0] + cuts, cuts + [total])]
+            if draw(st.integers(0, 4)) == 0:
+                parts[0] += draw(st.sampled_from([1, -1]))  # one team off by one unit
+            teams.append([[max(-20.0 * beta, min(20.0 * beta, part * unit)), draw(_sigma(beta, allow_zero_sigma))] for part in parts])
     elif regime == "dyadic":
         # exact sums and differences: mu multiples of 2^-4 beta-free units, sigma powers of two
         unit = 2.0 ** round(math.log2(beta))
@@ -163,7 +177,8 @@ def team_values(draw, cfg, sizes, tau_eff=None, regimes=REGIMES, allow_zero_sigm
                 teams.append([list(p) for p in members])
             else:
                 members = [list(base[j]) for j in range(k)]
-                if draw(st.booleans()):
+                how = draw(st.integers(0, 3))
+                if how == 1:
                     j = draw(st.integers(0, k - 1))
                     ulps = draw(st.integers(-3, 3))
                     m = members[j][0]
@@ -171,6 +186,17 @@ def team_values(draw, cfg, sizes, tau_eff=None, regimes=REGIMES, allow_zero_sigm
                         m = math.nextafter(m, math.inf if ulps > 0 else -math.inf)
                     if abs(m) <= 20.0 * beta:
                         members[j][0] = m
+                elif how >= 2:
+                    # near-coincidence at EVERY scale: a relative offset whose magnitude is log-uniform between rounding level and 1 %
+                    # (a window such as "within 1e-6 relative but not equal" lies somewhere on that axis)
+                    j = draw(st.integers(0, k - 1))
+                    rel = 10.0 ** draw(st.floats(-15.0, -2.0)) * draw(st.sampled_from([1.0, -1.0]))
+                    m = members[j][0] + rel * max(abs(members[j][0]), beta)
+                    if abs(m) <= 20.0 * beta:
+                        members[j][0] = m
+                    if draw(st.booleans()):
+                        members[j][1] = members[j][1] * (1.0 + 10.0 ** draw(st.floats(-15.0, -2.0)))
+                        members[j][1] = min(10.0 * beta, max(1e-4 * beta, members[j][1]))
                 teams.append(members)
         info["sizes_overridden"] = regime == "identical"
     else:
